@@ -50,6 +50,14 @@ RecTypes == { TNamed("RV"), TNamed("RB"), TNamed("Tree") }
 DLims == IF Tier = "quick" THEN {-1, 0, 1} ELSE {-1, 0, 1, 2}
 MLims == IF Tier = "quick" THEN {-1, 0, 2, 9} ELSE {-1, 0, 1, 2, 4, 9}
 
+\* the node estimate the code announces for ordered maps/sets (btree_utils.rs, with the real constants) stays within the
+\* factor two the property allows, for every length up to 5000 and a range of entry sizes
+RoundUp8(x) == ((x + 7) \div 8) * 8
+RealTreeEst(n, esz) == IF n = 0 THEN 0
+                       ELSE LET leaf == RoundUp8(12 + 11 * esz)  nodes == n \div 10 IN
+                            IF nodes = 0 THEN leaf ELSE nodes * (leaf + 96)
+ASSUME \A n \in 0..5000 : \A esz \in {1, 2, 4, 8, 16, 24, 32, 100, 1000} : 2 * RealTreeEst(n, esz) >= n * esz
+
 Init ==
   /\ \/ \E t \in Types : \E i \in Inputs : \E kn \in BOOLEAN : \E dl \in DLims : \E ml \in MLims : \E ct \in BOOLEAN :
           cfg = [E |-> E0, ty |-> t, inp |-> i, known |-> kn, dlim |-> dl, mlim |-> ml, counted |-> ct]
